@@ -1,5 +1,6 @@
 pub mod ast;
 pub mod build;
+pub mod fuzzapp;
 pub mod gen;
 pub mod hosts;
 pub mod lab;
